@@ -9,6 +9,8 @@ CONSTANTS
   SaveAsSet = {"none", "dir"}
   Modes = {"datagone", "shape"}
   MayFail = TRUE
+  PoolSet = {FALSE, TRUE}
+  AssembleMode = "index"
   MaxFaults = 1
 INVARIANT RoundTrip
 INVARIANT ErrorsPersisted
